@@ -251,9 +251,9 @@ def serial_snapshots(pb: Problem, s: int) -> tuple[list[list[torch.Tensor]] | No
         # "exactly as the single-process optimizer would update that local tensor as an ordinary parameter": the ordinary parameter has the local
         # shard's memory layout too (strided and contiguous reductions may round differently in bfloat16)
         for j, ((i, spec), t) in enumerate(zip(units, unit_ts)):
-            if i < len(ll) and ll[i] and t.dim() >= 2 and t.numel() > 0 and (not pb.eff["merge"] or tuple(rm.merge_dims(tuple(t.shape), pb.eff["mpd"], True)) == tuple(t.shape)):
-                rev = list(range(t.dim()))[::-1]
-                unit_ts[j] = t.permute(*rev).contiguous().permute(*rev)
+            t2 = noncontig_like(t, pb.eff) if (i < len(ll) and ll[i]) else None
+            if t2 is not None:
+                unit_ts[j] = t2
     params = [torch.nn.Parameter(t) for t in unit_ts]
     cd, pdt, cp = pb.comm_dtype, pb.dt, pb.comm_params
     comm = pb.flavour in ("ddp", "hsdp", "hybrid_shard")
@@ -286,6 +286,22 @@ def serial_snapshots(pb: Problem, s: int) -> tuple[list[list[torch.Tensor]] | No
     except Exception as e:  # noqa: BLE001
         return None, f"{type(e).__name__}: {str(e)[:200]}"
     return snaps, None
+
+
+def noncontig_like(t: torch.Tensor, eff: dict) -> torch.Tensor | None:
+    """t's values and shape in a non-row-major memory layout, or None where the optimizer's param.view(merged dims) would not be legal for it."""
+    if t.dim() < 2 or t.numel() == 0:
+        return None
+    rev = list(range(t.dim()))[::-1]
+    t2 = t.permute(*rev).contiguous().permute(*rev)
+    if t2.is_contiguous():
+        return None
+    md = tuple(rm.merge_dims(tuple(t.shape), eff["mpd"], True)) if eff["merge"] else tuple(t.shape)
+    try:
+        t2.view(md)
+    except RuntimeError:
+        return None
+    return t2
 
 
 def _same(a: torch.Tensor, b: torch.Tensor) -> bool:
@@ -380,10 +396,9 @@ def make_rank_fn(pb: Problem, collect_layout: bool = False, checkpoint_at: int |
             # same local values and shape in a non-row-major memory layout (a transposed / channels_last local shard); only where the optimizer's
             # param.view(merged dims) is legal for such a tensor, i.e. where merging leaves the local shape unchanged
             for i, t in enumerate(local0):
-                if i < len(llayout) and llayout[i] and t.dim() >= 2 and t.numel() > 0 and (
-                        not pb.eff["merge"] or tuple(rm.merge_dims(tuple(t.shape), pb.eff["mpd"], True)) == tuple(t.shape)):
-                    rev = list(range(t.dim()))[::-1]
-                    local0[i] = t.permute(*rev).contiguous().permute(*rev)
+                t2 = noncontig_like(t, pb.eff) if (i < len(llayout) and llayout[i]) else None
+                if t2 is not None:
+                    local0[i] = t2
         if fl in ("fully_shard", "hybrid_shard"):
             placements = [Shard(0)] if fl == "fully_shard" else [Replicate(), Shard(0)]
 
@@ -605,7 +620,7 @@ def world_classes(pb: Problem, tr: dict) -> list[str]:
             for i, shp in enumerate(pb.shapes):
                 a, b = pb.rows(i, 0)
                 loc = (b - a,) + tuple(shp[1:])
-                if i < len(ll) and ll[i] and len(loc) >= 2 and math.prod(loc) > 0 and (not pb.eff["merge"] or tuple(rm.merge_dims(loc, pb.eff["mpd"], True)) == loc):
+                if i < len(ll) and ll[i] and len(loc) >= 2 and math.prod(loc) > 0 and noncontig_like(torch.empty(loc), pb.eff) is not None:
                     cl.append("non_row_major_local_shard")
                     break
         if pb.case.get("mesh_perm") and list(pb.case["mesh_perm"]) != sorted(pb.case["mesh_perm"]):
